@@ -59,6 +59,12 @@ def nlinks(fkey): return len(FILES[fkey].split())
 class Scenario:
     def __init__(self, name, files, lines, family, budget=20, tags=()):
         self.name = name; self.files = list(files); self.lines = lines; self.family = family; self.budget = budget; self.tags = set(tags)
+        # automatic tags used by known-finding signatures
+        for f in self.files:
+            spec = FILES.get(f, '')
+            if 'mux=' in spec: self.tags.add('mux')
+            if 'pad=' in spec: self.tags.add('spanpkt')
+        if any(l.startswith('sr ') or l.startswith('fault 0 3 ') for l in lines): self.tags.add('shortread')
     def text(self):
         out = [f'scn {self.name} budget={self.budget}'] + [f'use {fid(f)}' for f in self.files] + self.lines + ['end']
         return '\n'.join(out)
@@ -77,7 +83,7 @@ def fid(f): return f'@F{f}@'      # placeholder, bound to a per-script numeric i
 
 def bind_ids(text, files):
     m = {f:i for i,f in enumerate(sorted(set(files)))}
-    if len(m) > 64: raise SystemExit('too many files in one script')
+    if len(m) > 500: raise SystemExit('too many files in one script')
     return re.sub(r'@F(\w+)@', lambda x: str(m[x.group(1)]), text)
 
 # ---------------------------------------------------------------- running
